@@ -37,6 +37,8 @@ EXPECTED_NOT_UNDERSTOOD = {
     "seeded/C18-O/patch.diff": "binary-search fast path with Series.searchsorted: searchsorted is not interpreted",
     "seeded/C16-R/patch.diff": "root selection by a per-name minimum depth (groupby('name')['depth'].transform('min')): a grouped transform as a row mask is not interpreted",
     "seeded/C17-Q/patch.diff": "the comparison table built by concatenating a DICT of the non-empty summaries and re-indexing the columns: another construction; the rule knows the keyed concat of both summaries",
+    "seeded/C09-T/patch.diff": "dag_longest_path is handed a topo_order built by sorting the nodes by time stamp: whether a hand-made order is a topological order of every graph is not decidable from the shape (ties between the two ends of a zero-weight edge)",
+    "seeded/C13-S/patch.diff": "main / backward roles taken from the sorted stack indices (registration order) instead of the label order: the rule sees that the label sort is gone but not what decides the roles now",
     "seeded/C03-L/patch.diff": "sort_events rewritten as a numpy time sort plus per-run comparison sorts: another sorting scheme; whether every run is covered is not decidable from the shape",
 }
 
